@@ -62,6 +62,9 @@ def run(tier, seed):
     e1 = vlib.model_check('DeadlineE1.tla', 'DeadlineE1.cfg', wd, workers=8)
     if not e1['ok']:
         raise vlib.Broken('DeadlineE1 failed:\n' + e1['out'][-2000:])
+    e1b = vlib.model_check('ExecSeqE1.tla', 'ExecSeqE1.cfg', wd, workers=8)
+    if not e1b['ok']:
+        raise vlib.Broken('ExecSeqE1 failed:\n' + e1b['out'][-2000:])
     n = 20000 if tier == 'thorough' else 260
     Ls = [1, 2, 3, 59, 60, 61, 90, 3599, 3600, 3601, 86399, 86400, 86401, 172800, 604800, 1209600, 2147483, 2147484, 4294967, 4294968, 30 * 86400, 50 * 86400, 400 * 86400]
     cases = []
@@ -110,6 +113,20 @@ def run(tier, seed):
     kills = [(1, 30), (2, 30), (5, 1), (3, 30)] if tier != 'thorough' else [(1, 30), (2, 30), (3, 30), (1, 30), (2, 30), (3, 30), (5, 1), (4, 2), (2, 1), (6, 30), (1, 30), (10, 3)]
     with cf.ThreadPoolExecutor(max_workers=len(kills)) as ex:
         recs += list(ex.map(lambda lw: real_kill(B, shim, xd, *lw), kills))
+    # E3 on the executor loop: requests with several VTODOs taken from ExecSeqE1's request set, run by one real echsx each
+    TS = [{'L': l, 'W': w, 'prep': p} for l in (0, 1, 2) for w in (1, 2, 3) for p in (True, False) if l != w]
+    reqs = [[{'L': 1, 'W': 2, 'prep': False}, {'L': 0, 'W': 2, 'prep': True}],                       # a task that cannot start, then one without limit
+            [{'L': 1, 'W': 3, 'prep': True}, {'L': 1, 'W': 3, 'prep': True}],                        # killed, then killed again
+            [{'L': 1, 'W': 3, 'prep': True}, {'L': 0, 'W': 2, 'prep': True}],                        # killed, then unlimited
+            [{'L': 2, 'W': 1, 'prep': True}, {'L': 1, 'W': 2, 'prep': True}, {'L': 2, 'W': 1, 'prep': True}],
+            [{'L': 2, 'W': 3, 'prep': False}, {'L': 2, 'W': 3, 'prep': True}, {'L': 0, 'W': 1, 'prep': True}]]
+    for _ in range(200 if tier == 'thorough' else 19):
+        reqs.append([dict(rnd.choice(TS)) for _ in range(rnd.choice([2, 2, 3]))])
+    def req_case(ts):
+        r = execrun.run_request(B, shim, xd, ts); r.pop('journal_text', None)
+        return {'e': 'Req', 'tasks': ts, 'rc': r['rc'], 'res': r['tasks']}
+    with cf.ThreadPoolExecutor(max_workers=vlib.NCPU) as ex:
+        recs += list(ex.map(req_case, reqs))
     trace = f'{wd}/limit.ndjson'
     with open(trace, 'w') as f:
         for r in recs: f.write(json.dumps(r) + '\n')
@@ -121,10 +138,10 @@ def run(tier, seed):
         for kk in ('durc', 'durlinec'): rec.pop(kk, None)
         bad.append((vlib.save_replay(PID, f'case{g}.json', rec), rec))
     unlisted, listed = vlib.classify(PID, bad)
-    cov = {'states': e1['states'], 'transitions': e1['transitions'], 'traces_validated_against_impl': len(recs),
+    cov = {'states': e1['states'] + e1b['states'], 'transitions': e1['transitions'] + e1b['transitions'], 'executor_loop_model': {'states': e1b['states'], 'actions': e1b['coverage']}, 'multi_task_requests': len(reqs), 'traces_validated_against_impl': len(recs),
            'samples': [{k: r[k] for k in r if k not in ('durc', 'durlinec')} for r in (recs[0], recs[len(cases)], recs[-1])],
            'evaluations': len(recs), 'distinct_nontrivial': len(set(json.dumps({k: r[k] for k in r if k in ('kind', 'dur', 'de', 'L', 'W')}) for r in recs)),
-           'rule': 'one case = one limit on its way through the real code: an event with DURATION (any ISO spelling: seconds, minutes+seconds, D+T parts, weeks, leading +) or DTEND is queued in the daemon harness, its first occurrence comes due, the VTODO the daemon hands to echsx is captured and fed to the real echsx process whose alarm(2) argument is logged; DUE execution requests (future and past); real-time runs of sleep under 1..3 s limits and a short job under a longer limit',
+           'rule': 'one case = one limit on its way through the real code: an event with DURATION (any ISO spelling: seconds, minutes+seconds, D+T parts, weeks, leading +) or DTEND is queued in the daemon harness, its first occurrence comes due, the VTODO the daemon hands to echsx is captured and fed to the real echsx process whose alarm(2) argument is logged; DUE execution requests (future and past); real-time runs of sleep under 1..3 s limits and a short job under a longer limit; execution requests with 2..3 VTODOs (limits 0..2 s, job times 1..3 s, tasks that cannot be started) taken from the request set of ExecSeqE1 and run by one real echsx process each, every task judged against its own contract',
            'limit_cases': len(cases), 'due_cases': len(dues), 'real_time_runs': len(kills), 'mismatching_cases': v['nbad'], 'skipped': v['nskip'], 'exhaustive': False}
     return vlib.finish(PID, tier, seed, 'model_checking', cov, t0, unlisted, listed,
                        ['TLC/SANY, Json/IOUtils', 'DtText.tla duration grammar', 'alarm(2) observed through the LD_PRELOAD shim (not armed in the virtual runs)', 'real-time runs depend on the machine not being stalled for more than 1.5 s',
